@@ -119,7 +119,6 @@ def generated_execute(world, log):
     def execute(self, referenceMaps, queryMaps):
         log.append([(m.moleculeId, m.shift, len(m.positions)) for m in queryMaps])
         rows = []
-        first = len(log) == 1 or log[-1] == log[0] and all(m.shift == 0 and any(m is q for q in world["queries"]) for m in queryMaps)
         for m in queryMaps:
             is_whole = any(m is q for q in world["queries"])
             if is_whole:
@@ -134,16 +133,17 @@ def generated_execute(world, log):
             if ch is None:
                 continue
             refi, rev, ridx, qidx = ch
-            if refi >= len(referenceMaps):
+            target = [r for r in referenceMaps if r.moleculeId == refi + 1]
+            if not target:
                 continue
-            row = mkrow(E, referenceMaps[refi], m, rev, ridx, qidx, tag, world["su"])
+            row = mkrow(E, target[0], m, rev, ridx, qidx, tag, world["su"])
             if row is not None and row.alignedPairs:
                 rows.append(row)
         return rows
     return execute
 
 
-def run_mode(world, mode, order=None):
+def run_mode(world, mode, order=None, ref_order=None):
     """one run of the real multi-pass coordinator in `mode`; returns dict(main, files, passes, exc)"""
     args = make_args(outputMode=mode, maxDifference=world["maxDiff"])
     cap = CapReader()
@@ -154,8 +154,9 @@ def run_mode(world, mode, order=None):
     _WorkflowCoordinator.execute = generated_execute(world, log)
     out = dict(main=None, files={}, exc=None, log=log, returned=None)
     queries = world["queries"] if order is None else [world["queries"][i] for i in order]
+    refs = world["refs"] if ref_order is None else [world["refs"][i] for i in ref_order]
     try:
-        returned = coord.execute(world["refs"], queries)
+        returned = coord.execute(refs, queries)
         out["returned"] = returned
         out["main"] = AlignmentResults.create("r.cmap", "q.cmap", returned).rows
         out["files"] = cap.files
